@@ -28,7 +28,7 @@ RULE = (
     ">=2 operations on one object with >=1 bond; distinct by case digest."
 )
 MANIFEST = {
-    "text": "History-based (stateful) search: generated sequences of canonicalize/serialize calls over a pool of shared graph objects, with the renaming invariant, the no-mutation invariant (deep snapshots of every pool object re-compared after every step) and the repeatability invariant evaluated after each step. Finds in-place relabelling, dropped copies, scratch state that leaks between calls, merged nodes.",
+    "text": "History-based (stateful) search: generated sequences of canonicalize/serialize calls over a pool of shared graph objects (incl. graphs whose labels differ from their iteration positions), with the renaming invariant, the no-mutation invariant (deep snapshots of every pool object re-compared after every step) and the repeatability invariant evaluated after each step. Finds in-place relabelling, dropped copies, scratch state that leaks between calls, merged nodes.",
     "note": "Trusted: the harness' snapshot/compare code. The `explored` scratch key is ignored as the property allows.",
     "technique": "property-based testing over call histories (generated operation sequences interpreted against a model; Hypothesis, 16 shards)",
 }
